@@ -22,7 +22,7 @@ def run(tier):
         rule="one CrossHair condition per harness function; 'Confirmed over all paths' = exhaustive over the path tree")
     rep.samples = [dict(function=r["name"], verdict=r["verdict"], seconds=r["time"]) for r in res]
     rep.assumptions = ["CrossHair's model of Python ints/bools and z3", "copy.deepcopy is executed concretely by CrossHair on real objects"]
-    return rep.finish({"conditions confirmed": (n, 7)})
+    return rep.finish({"conditions confirmed": (n, 8)})
 
 
 def replay(rp):
